@@ -20,6 +20,7 @@ pub mod c16_routing;
 pub mod c20_dns;
 pub mod c04_udp;
 pub mod c02_sockets;
+pub mod c02_dgram;
 pub mod ndl;
 pub mod tcb_bench;
 pub mod tcb_checks;
@@ -49,7 +50,7 @@ pub fn parts_for(id: &str) -> Option<Vec<Part>> {
         "C10" => vec![part(c10_fragment::Fragmentation, 150_000, 3_000_000)],
         "C11" => vec![part(c11_reassembly::ReassemblyHistories, 100_000, 2_000_000)],
         "C01" => vec![part(tcb_checks::ReliableStream, 40_000, 3_000_000)],
-        "C02" => vec![part(c02_sockets::StreamSockets { multi_thread: false }, 20_000, 600_000), part(c02_sockets::StreamSockets { multi_thread: true }, 640, 20_000)],
+        "C02" => vec![part(c02_sockets::StreamSockets { multi_thread: false }, 20_000, 600_000), part(c02_sockets::StreamSockets { multi_thread: true }, 640, 20_000), part(c02_dgram::DatagramSockets, 10_000, 400_000)],
         "C03" => vec![part(tcb_checks::OpenClose, 40_000, 3_000_000)],
         "C12" => vec![part(c12_modcmp::ModCmpLaws, 200_000, 4_000_000), part(tcb_checks::IsnIndependence, 20_000, 1_500_000)],
         "C16" => vec![part(c16_routing::Routing, 10_000, 600_000)],
